@@ -38,6 +38,10 @@ CHECKS = {
    technique="deterministic simulation with crash/recover fault injection: rebuild from the action log (then lock-step shadow) or from the exported card at seeded points, and seeded re-scheduling of the jumping order",
    text="Seeded histories (as C02, heckled) with injected recoveries: from_actions() replicas must equal the original snapshot and stay equal call for call for the rest of the run; to_matrix()/from_matrix() round trips must reproduce state, heights, bests, places and cards modulo pass marks; the accepted history re-executed under 4 fixed adversarial and several seeded random per-height interleavings must be accepted call for call and end in the same cards, state, bests and places. Sampling, not proof (quick 8e4 histories with ~1e6 recoveries/re-schedules, thorough 2e6).",
    note="Equality is over public observables only (state, heights, bar, log, trials, cards, bests, places); private flags are compared indirectly through the lock-step continuation."),
+ "C19": dict(engine="schemasim", design_ref="DESIGN.md 5",
+   technique="deterministic simulation: seeded call histories in processes forked from a pristine importer, per-call oracle = the same call made first in a fresh process; file-open and socket seams (network permanently partitioned)",
+   text="Seeded exploration of call histories over schema_valid / valid_against_schema (13 schemas x 5 validator spellings x expect_failure, 25 documents x 13 schemas x expect_failure, relative and absolute spellings): short histories biased to cache-key collisions and long ones overflowing the 20-entry caches (random, fill-then-probe, thrash). Every call's outcome must equal its fresh-process outcome; the history-free clauses (bundled valid samples validate, invalid ones do not / raise, schemas valid under Draft4, no socket touched, only repository .json files opened) are checked on the fresh table. Sampling, not proof (quick 8e3 histories / 1.7e5 calls, thorough 2e5 histories plus a fresh-interpreter cross-check of the table and diagnostic I/O-fault runs).",
+   note="fork() of a never-called importer is taken as a fresh process (cross-checked in the thorough tier); exception outcomes are compared by type and message hash; injected read errors are diagnostic only because the property quantifies over histories, not I/O faults."),
 }
 
 def main():
